@@ -42,6 +42,11 @@ def rowwise(rep, name):
         if s.check() == z3.unsat:
             continue
         r = solve.discharge(assum, z3.And(*[a == b for a, b in zip(p1["out"], out2)]), timeout_ms=30000)
+        if r["status"] == "unknown":
+            w = solve.concrete_refute(assum, list(zip(p1["out"], out2)))
+            if w is not None:
+                r = {"status": "refuted", "backend": "concrete-witness(float evaluation of the terms)", "time_s": r["time_s"], "model": None,
+                     "reason": "witness " + ", ".join(f"{k}={v:.4g}" if isinstance(v, float) else f"{k}={v}" for k, v in sorted(w.items())[:12])}
         nm = f"core.{name}.row-result-independent-of-batch[path{i}~path{j}]"
         rep.obligation(nm, r, fn["function"], "noninterference")
         if r["status"] == "refuted":
